@@ -1,4 +1,5 @@
 import GdVerif.Proto.Gs1
+import GdVerif.Spec.GsText
 /-
   SPEC for C04 / GameSpy 1: what a server speaking the GameSpy 1 query protocol sends for an
   abstract server state, and the response a user is entitled to.  Reference reading: node-gamedig
@@ -13,19 +14,6 @@ import GdVerif.Proto.Gs1
 -/
 namespace Gd.Gs1.Spec
 open Gd Gd.Gs Gd.Gs1
-
-def bs (s : String) : Bytes := asciiBytes s
-
-/-- decimal digits of `n`, most significant first (fuel: any number above `n`) -/
-def decAux : Nat → Nat → Bytes
-  | 0, _ => []
-  | f + 1, n => if n < 10 then [UInt8.ofNat (48 + n)] else decAux f (n / 10) ++ [UInt8.ofNat (48 + n % 10)]
-
-/-- decimal text of a natural number -/
-def dec (n : Nat) : Bytes := decAux (n + 1) n
-
-/-- decimal text of an integer -/
-def decInt (i : Int) : Bytes := if i < 0 then 45 :: dec (-i).toNat else dec i.toNat
 
 /-- abstract server state: exactly the data a complete response carries -/
 structure State where
